@@ -98,11 +98,11 @@ impl<'a> Tracer<'a> {
     pub fn count(&mut self, board: &mut Board) -> bool {
         match guarded(|| board.count_current_position()) {
             Ok(n) => {
-                self.emit(json!({"ev": "Count", "res": n as u64}), board);
+                self.emit(json!({"ev": "Count", "res": n as u64, "panic": ""}), board);
                 true
             }
             Err(p) => {
-                self.emit(json!({"ev": "Count", "res": format!("panic: {}", p)}), board);
+                self.emit(json!({"ev": "Count", "res": 0, "panic": p}), board);
                 false
             }
         }
@@ -110,11 +110,11 @@ impl<'a> Tracer<'a> {
     pub fn uncount(&mut self, board: &mut Board) -> bool {
         match guarded(|| board.uncount_current_position()) {
             Ok(n) => {
-                self.emit(json!({"ev": "Uncount", "res": n as u64}), board);
+                self.emit(json!({"ev": "Uncount", "res": n as u64, "panic": ""}), board);
                 true
             }
             Err(p) => {
-                self.emit(json!({"ev": "Uncount", "res": format!("panic: {}", p)}), board);
+                self.emit(json!({"ev": "Uncount", "res": 0, "panic": p}), board);
                 false
             }
         }
@@ -287,9 +287,14 @@ fn walk(tr: &mut Tracer, rng: &mut Rng, gen: &mut MoveGenerator, start: Board, p
         last_own[if side == Color::White { 1 } else { 0 }] = Some(m.clone());
         h.stack.push((m, reg));
         if register && h.board.max_seen_position_count() as u64 >= 3 {
-            // the game would be over here; look at the verdict, then take it back and go on
+            // the game would be over here; look at the verdict, then (usually) take it back and go on;
+            // now and then play on past the third occurrence so that counts of 4 and 5 and their
+            // unregistration are seen too
             if !tr.ending(&mut h.board, gen) {
                 return;
+            }
+            if rng.chance(2, 5) {
+                continue;
             }
             let (m, reg) = h.stack.pop().unwrap();
             if reg && !tr.uncount(&mut h.board) {
